@@ -1,5 +1,6 @@
 import Driver.Cache
 import Driver.TI
+import Driver.TC
 
 open Osu.Driver
 
@@ -12,6 +13,7 @@ def handle (st : DState) (line : String) : DState × String :=
     let (c, out) := Cache.step st.cache rest
     ({ st with cache := c }, out)
   | "ti" :: rest => (st, TI.step rest)
+  | "tc" :: rest => (st, TC.step rest)
   | _ => (st, "bad-op")
 
 partial def loop (h : IO.FS.Stream) (out : IO.FS.Stream) (st : DState) : IO Unit := do
